@@ -330,6 +330,9 @@ class Analyzer:
         self.notes = []
         self._addr_taken = self._compute_addr_taken()
         self._facts_cache = {}
+        self._wcount = {}
+        self._pending_rhs = None
+        self._pending_rel = None
         self._loop_cache = {}
         self.cur_block = None
         self._solve()
@@ -599,6 +602,97 @@ class Analyzer:
                 best = 0
         return best
 
+    def _diff_of(self, kx, e, st, depth=0):
+        """interval for (x - e) where x is the variable kx, using tracked
+        differences for variables and the min/max structure of e"""
+        if depth > 6:
+            return None
+        e0 = sx.strip(e)
+        ke = sx.key(e0)
+        if ke == kx:
+            return const(0)
+        vk = self.varkey(e0)
+        if vk is not None:
+            d = st.get(('diff', kx, vk))
+            xv = st.get(kx)
+            if xv is None:
+                xv = self._key_range(kx) if kx[0] in ('local', 'param') else TOP
+            plain = sub(xv, self.ev(e0, st))
+            if d is not None:
+                return meet(d, plain) or d
+            return plain
+        if sx.kind(e0) == 'cond':
+            c = sx.strip_paren(e0[1])
+            if sx.kind(c) == 'bin' and c[1] in ('<', '<=', '>', '>='):
+                ka, kb = sx.key(c[2]), sx.key(c[3])
+                kt, kf = sx.key(e0[2]), sx.key(e0[3])
+                is_min = None
+                if (ka, kb) == (kt, kf):
+                    is_min = c[1] in ('<', '<=')
+                elif (ka, kb) == (kf, kt):
+                    is_min = c[1] in ('>', '>=')
+                if is_min is not None:
+                    da = self._diff_of(kx, e0[2], st, depth + 1)
+                    db = self._diff_of(kx, e0[3], st, depth + 1)
+                    if da is None or db is None or not da or not db:
+                        return None
+                    if is_min:     # x - min(A,B) = max(x-A, x-B)
+                        return mk(max(lo(da), lo(db)), max(hi(da), hi(db)))
+                    return mk(min(lo(da), lo(db)), min(hi(da), hi(db)))
+        if sx.kind(e0) == 'bin' and e0[1] in ('+', '-') and not sx.A(e0).get('ptr'):
+            da = self._diff_of(kx, e0[2], st, depth + 1)
+            if da is not None:
+                kv = self.ev(e0[3], st)
+                return sub(da, kv) if e0[1] == '+' else add(da, kv)
+        xv = st.get(kx)
+        if xv is None:
+            xv = self._key_range(kx) if kx[0] in ('local', 'param') else TOP
+        return sub(xv, self.ev(e0, st))
+
+    def _minmax_rel(self, e):
+        """x = IMIN(c, y) / IMAX(c, y) with c constant and y a plain variable: ('min'|'max', c, ykey)"""
+        e = sx.strip(e)
+        if sx.kind(e) != 'cond':
+            return None
+        c = sx.strip_paren(e[1])
+        if sx.kind(c) != 'bin' or c[1] not in ('<', '<=', '>', '>='):
+            return None
+        ka, kb = sx.key(c[2]), sx.key(c[3])
+        kt, kf = sx.key(e[2]), sx.key(e[3])
+        if (ka, kb) == (kt, kf):
+            is_min = c[1] in ('<', '<=')
+        elif (ka, kb) == (kf, kt):
+            is_min = c[1] in ('>', '>=')
+        else:
+            return None
+        a, b = sx.strip(e[2]), sx.strip(e[3])
+        for x, y in ((a, b), (b, a)):
+            cv = sx.int_val(x)
+            yk = self.varkey(y)
+            if cv is not None and yk is not None:
+                return ('min' if is_min else 'max', cv, yk)
+        return None
+
+    def _propagate_rel(self, st, vk):
+        """after refining x (vk), refine y where x = min/max(c, y)"""
+        rel = st.get(('rel', vk))
+        if rel is None or vk not in st:
+            return st
+        kind_, c, yk = rel
+        x = st[vk]
+        ycur = st.get(yk)
+        if ycur is None:
+            ycur = self._key_range(yk) if yk[0] in ('local', 'param') else TOP
+        if kind_ == 'min':
+            allowed = join(meet(x, mk(-INF, c - 1)), mk(c, INF) if meet(x, const(c)) else BOT)
+        else:
+            allowed = join(meet(x, mk(c + 1, INF)), mk(-INF, c) if meet(x, const(c)) else BOT)
+        ny = meet(ycur, allowed)
+        if ny and ny != ycur:
+            st = dict(st)
+            st[yk] = ny
+        return st
+
     def _minmax(self, e, st):
         """(A < B) ? A : B  and friends: interval min / max"""
         c = sx.strip_paren(e[1])
@@ -736,6 +830,8 @@ class Analyzer:
             if new != cur or vk not in out:
                 out = dict(out)
                 out[vk] = new
+                if ('rel', vk) in out:
+                    out = self._propagate_rel(out, vk)
         return out
 
     def _cast_transparent(self, c, st):
@@ -753,6 +849,10 @@ class Analyzer:
             return a
         out = {}
         for k in set(a) & set(b):
+            if k[0] == 'rel':
+                if a[k] == b[k]:
+                    out[k] = a[k]
+                continue
             out[k] = join(a[k], b[k])
         return out
 
@@ -812,21 +912,30 @@ class Analyzer:
             if n == o:
                 out[k] = o
                 continue
+            if k[0] == 'rel':
+                continue
             if assigned is not None and k[0] in ('local', 'param') and k not in assigned and k not in self._addr_taken:
                 # not assigned inside the loop: its value at the head can only change because the
                 # state entering the loop changed - plain join keeps the entry bound
                 out[k] = n
                 continue
             j = join(o, n)
-            l = lo(j) if lo(j) >= lo(o) else self._wlow(k, lo(j))
-            h = hi(j) if hi(j) <= hi(o) else self._whigh(k, hi(j))
+            wc = self._wcount.get((head, k), 0) + 1
+            self._wcount[(head, k)] = wc
+            if wc > 4:
+                # thresholds exhausted their welcome: go to the type bound
+                l = lo(j) if lo(j) >= lo(o) else self._type_lo(k)
+                h = hi(j) if hi(j) <= hi(o) else self._type_hi(k)
+            else:
+                l = lo(j) if lo(j) >= lo(o) else self._wlow(k, lo(j))
+                h = hi(j) if hi(j) <= hi(o) else self._whigh(k, hi(j))
             if lo(j) >= lo(o) and hi(j) <= hi(o):
                 out[k] = j
             else:
                 out[k] = mk(l, h)
         return out
 
-    LADDER = [0, 1, 2, 3, 4, 7, 8, 15, 16, 31, 32, 63, 64, 127, 128, 255, 256, 511, 1023, 2047, 4095, 32767, 65535, 1 << 31]
+    LADDER = [0, 1, 3, 7, 15, 31, 63, 127, 255, 1023, 4095, 32767, 65535, 1 << 31]
 
     def _whigh(self, k, h):
         for x in self.LADDER:
@@ -872,8 +981,11 @@ class Analyzer:
                         l = self.f.locals.get(d[2])
                         if l and '[' not in l['type']:
                             v = self.ev(d[3], st)
-                            st = dict(st)
-                            st[('local', d[2])] = meet(v, self._local_range(d[2])) or v
+                            self._pending_rel = self._minmax_rel(d[3])
+                            self._pending_rhs = d[3]
+                            st = self._store(['local', d[1], d[2]], meet(v, self._local_range(d[2])) or v, st)
+                            self._pending_rel = None
+                            self._pending_rhs = None
                     else:
                         st = dict(st)
                         st.pop(('local', d[2]), None)
@@ -896,12 +1008,16 @@ class Analyzer:
                 return None
             v = self.ev(e[2], st)
             self._pending_delta = None
+            self._pending_rel = self._minmax_rel(e[2])
+            self._pending_rhs = e[2]
             r = sx.strip(e[2])
             if self.diffs and sx.kind(r) == 'bin' and r[1] in ('+', '-') and sx.key(sx.strip(r[2])) == sx.key(sx.strip_paren(e[1])):
                 d = self.ev(r[3], st)
                 self._pending_delta = d if r[1] == '+' else neg(d)
             out = self._store(e[1], v, st)
             self._pending_delta = None
+            self._pending_rel = None
+            self._pending_rhs = None
             return out
         if k == 'cassign':
             st = self._effects(e[3], st)
@@ -957,6 +1073,13 @@ class Analyzer:
         lv = sx.strip_paren(lv)
         vk = self.varkey(lv)
         st = dict(st)
+        if vk is not None:
+            for k2 in list(st):
+                if k2[0] == 'rel' and (k2[1] == vk or st[k2][2] == vk):
+                    del st[k2]
+            pr = getattr(self, '_pending_rel', None)
+            if pr is not None and pr[2] != vk:
+                st[('rel', vk)] = pr
         if vk is not None and self.diffs:
             oldv = st.get(vk)
             if oldv is None:
@@ -966,8 +1089,16 @@ class Analyzer:
                 dk = ('diff', kx, ky)
                 if vk == kx or vk == ky:
                     cur = st.get(dk)
+                    rhs = getattr(self, '_pending_rhs', None)
                     if delta is not None and cur is not None:
                         st[dk] = add(cur, delta) if vk == kx else sub(cur, delta)
+                    elif vk == ky and rhs is not None:
+                        # y' = rhs:  x - y' evaluated relationally
+                        d = self._diff_of(kx, rhs, st)
+                        if d is not None and not is_top(d):
+                            st[dk] = d
+                        elif dk in st:
+                            del st[dk]
                     elif dk in st:
                         del st[dk]
         if vk is not None:
@@ -1119,7 +1250,9 @@ class Analyzer:
                 if old is not None:
                     nn = {}
                     for k in new:
-                        if k in old:
+                        if k[0] == 'rel':
+                            nn[k] = new[k]
+                        elif k in old:
                             m = meet(old[k], new[k])
                             nn[k] = m if m else new[k]
                         else:
@@ -1224,10 +1357,16 @@ PURE = {'abs', 'silk_min_int', 'silk_max_int', 'silk_min_32', 'silk_max_32', 'si
 
 
 def cast_to(v, r):
+    """value stored into a variable of range r.  Signed targets: signed
+    overflow is undefined behaviour, so values outside the type are clipped
+    (assumption stated in DESIGN.md); unsigned targets wrap: full range."""
     if r == TOP or not v:
         return v
     if lo(v) >= lo(r) and hi(v) <= hi(r):
         return v
+    if lo(r) < 0:
+        m = meet(v, r)
+        return m if m else r
     return r
 
 
